@@ -60,6 +60,7 @@ type vfCfg struct {
 	NoPwCache     bool        `json:"no_pw_cache,omitempty"`
 	Sealed        bool        `json:"sealed,omitempty"`
 	Ed25519OtherPass bool     `json:"ed25519_other_pass,omitempty"` // the sealed Ed25519 CA file needs another passphrase than the primary
+	NoHostIdentity bool       `json:"no_host_identity,omitempty"` // host_identity is not configured: the identity is derived from the machine's host name (which is vfHost here)
 	BadPrimary    bool        `json:"bad_primary,omitempty"` // sealed primary CA file decrypts (right passphrase) to a key the loader must reject (an Ed25519 key)
 	GroupsLDAP    bool        `json:"groups_ldap,omitempty"` // userinfo_sources.ldap configured (simulated directory)
 	GroupPrepend  string      `json:"group_prepend,omitempty"` // userinfo_sources.ldap.group_prepend
@@ -240,7 +241,9 @@ func (w *vfWorld) writeConfig() (string, error) {
 	var b strings.Builder
 	b.WriteString("base:\n")
 	fmt.Fprintf(&b, "  http_address: \":443\"\n  admin_address: \":6920\"\n")
-	fmt.Fprintf(&b, "  host_identity: %q\n", vfHost)
+	if !c.NoHostIdentity {
+		fmt.Fprintf(&b, "  host_identity: %q\n", vfHost)
+	}
 	fmt.Fprintf(&b, "  tls_cert_filename: %q\n  tls_key_filename: %q\n", vfFixture("server.pem"), vfFixture("server.key"))
 	ca := "ca_rsa.pem"
 	if c.CAKey == "ecdsa" && !c.Sealed {
@@ -471,6 +474,10 @@ func (w *vfWorld) build() error {
 		return fmt.Errorf("loadVerifyConfigFile: %w", err)
 	}
 	w.state = state
+	if w.cfg.NoHostIdentity {
+		// the loader asked the operating system for the host name: this machine is called vfHost
+		state.HostIdentity = vfHost
+	}
 	synctest.Wait()
 
 	// put both databases behind the vfsql driver.  The goroutine started by
